@@ -135,7 +135,92 @@ func forwardRefHistory(r *mon.Rand, k int) ([]piece, string) {
 	return pieces, fmt.Sprintf("forward-ref-in-piece:after=%s:decls=%d", before, len(decls))
 }
 
+// loopLeftoverHistory: a piece rejected inside a loop header or body, then `break` / `continue` at top level
+// (which must be rejected as well), then ordinary pieces.
+func loopLeftoverHistory(r *mon.Rand, k int) ([]piece, string) {
+	g := fmt.Sprintf("w%d", k%5)
+	pieces := []piece{{Stmts: []gen.Stmt{decl(g, lit(int64(r.Range(1, 9))))}}}
+	n := r.Range(1, 2)
+	for i := 0; i < n; i++ {
+		pieces = append(pieces, rejectPiece("undefined-in-loop", r.Intn(1000), nil, nil))
+	}
+	if r.Bool() {
+		pieces = append(pieces, piece{Stmts: []gen.Stmt{assign(g, "+=", lit(10))}})
+	}
+	m := r.Range(1, 3)
+	for i := 0; i < m; i++ {
+		pieces = append(pieces, rejectPiece("control-outside-loop", r.Intn(1000), nil, nil))
+		pieces = append(pieces, piece{Stmts: []gen.Stmt{assign(g, "=", bin("+", id(g), lit(1))), es(id(g))}})
+	}
+	body := []gen.Stmt{assign(g, "+=", id("i")), es(&gen.IfExpr{Cond: bin(">", id("i"), lit(1)), Then: []gen.Stmt{&gen.Break{}}})}
+	pieces = append(pieces, piece{Stmts: []gen.Stmt{&gen.For{Kind: "three", Init: decl("i", lit(0)), Cond: bin("<", id("i"), lit(5)), Post: &gen.IncDec{Name: "i", Op: "++"}, Body: body}, es(id(g))}})
+	return pieces, fmt.Sprintf("loop-leftover:rejected-loops=%d:controls=%d", n, m)
+}
+
+// failedMakerHistory: a function creates a closure over its own locals and THEN fails at run time; a later
+// piece calls, at the same call depth, another function that creates closures over its locals, and uses them.
+func failedMakerHistory(r *mon.Rand, k int) ([]piece, string) {
+	n := int64(r.Range(5, 9))
+	failKind := mon.Pick(r, []string{"index", "type", "raise", "div"})
+	var failing gen.Expr
+	switch failKind {
+	case "index":
+		failing = &gen.Index{X: &gen.ListLit{Items: []gen.Expr{lit(1), lit(2)}}, I: id("n")}
+	case "type":
+		failing = bin("+", id("n"), &gen.StrLit{V: "x"})
+	case "raise":
+		failing = call(id("error"), &gen.StrLit{V: "boom"})
+	default:
+		failing = bin("/", id("n"), lit(0))
+	}
+	nloc := r.Range(0, 9) // also more than the 8 in-frame slots
+	body := []gen.Stmt{decl("get", fn("", nil, ret(id("n"))))}
+	for i := 0; i < nloc; i++ {
+		body = append(body, decl(fmt.Sprintf("pad%d", i), lit(int64(i))))
+	}
+	if r.Bool() {
+		body = append(body, decl("bump", fn("", nil, assign("n", "+=", lit(1)), ret(id("n")))), es(call(id("bump"))))
+	}
+	body = append(body, ret(bin("+", failing, call(id("get")))))
+	broken := &gen.FuncDecl{F: fn("broken", []string{"n"}, body...)}
+	counter := &gen.FuncDecl{F: fn("counter", []string{"start"}, ret(fn("", nil, assign("start", "+=", lit(1)), ret(id("start")))))}
+	if r.Bool() {
+		counter = &gen.FuncDecl{F: fn("counter", []string{"start"}, decl("cur", bin("*", id("start"), lit(2))), ret(fn("", nil, assign("cur", "+=", id("start")), ret(id("cur")))))}
+	}
+	pieces := []piece{{Stmts: []gen.Stmt{broken}}, {Stmts: []gen.Stmt{counter}}}
+	depth := r.Range(0, 2)
+	callee := "broken"
+	for d := 0; d < depth; d++ {
+		w := fmt.Sprintf("wrap%d", d)
+		pieces = append(pieces, piece{Stmts: []gen.Stmt{&gen.FuncDecl{F: fn(w, []string{"a"}, ret(bin("+", call(id(callee), id("a")), lit(1))))}}})
+		callee = w
+	}
+	fails := r.Range(1, 2)
+	for i := 0; i < fails; i++ {
+		pieces = append(pieces, piece{Stmts: []gen.Stmt{es(call(id(callee), lit(n)))}}) // fails at run time
+	}
+	mk := "counter"
+	if depth > 0 && r.Bool() {
+		// the maker is called at the depth the failed call had
+		pieces = append(pieces, piece{Stmts: []gen.Stmt{&gen.FuncDecl{F: fn("mkdeep", []string{"a"}, ret(call(id("counter"), id("a"))))}}})
+		mk = "mkdeep"
+	}
+	pieces = append(pieces,
+		piece{Stmts: []gen.Stmt{decl("c", call(id(mk), lit(10)))}},
+		piece{Stmts: []gen.Stmt{decl("first", call(id("c")))}},
+		piece{Stmts: []gen.Stmt{decl("second", call(id("c"))), es(&gen.ListLit{Items: []gen.Expr{id("first"), id("second")}})}},
+		piece{Stmts: []gen.Stmt{decl("c2", call(id(mk), lit(100))), es(&gen.ListLit{Items: []gen.Expr{call(id("c2")), call(id("c")), call(id("c2"))}})}},
+	)
+	return pieces, fmt.Sprintf("failed-closure-maker:%s:locals=%d:depth=%d:fails=%d", failKind, nloc, depth, fails)
+}
+
 func nestedHistory(r *mon.Rand, k int) ([]piece, string) {
+	if k%16 == 1 {
+		return failedMakerHistory(r, k)
+	}
+	if k%16 == 9 {
+		return loopLeftoverHistory(r, k)
+	}
 	switch k % 8 {
 	case 3, 7:
 		return blockShadowHistory(r, k)
